@@ -22,6 +22,7 @@ import PsdVerif.Lemmas.C03PixelsRle
 import PsdVerif.Lemmas.C03PixelsLengths
 import PsdVerif.Lemmas.CodecSamples
 import PsdVerif.Props.C17
+import PsdVerif.Generated.C03Save
 
 namespace PsdVerif.C03Pixels
 open PsdVerif
@@ -407,6 +408,17 @@ end Sections
 
 section Merged
 open PsdVerif.Rle PsdVerif.Compression PsdVerif.Pixels PsdVerif.Merged
+
+/-- **The declared code is the code the payload was compressed with.** The model's `save` stores `setData comp planes header`:
+compression code and payload are produced by ONE call. Regenerated from the AST on every run: the only function of psd_tools
+that assigns a `compression` attribute of an existing object is `VirtualMemoryArray.set_data` (which compresses with the value
+it stores, C04 `vma_roundtrip`); `PSDImage.save` makes exactly one `set_data` call, with the planes and the header, and
+afterwards assigns nothing but the composite flag of the version-info resource. A save that re-labels the merged image after
+compressing it (a zlib payload behind code 1) adds a store and breaks this. -/
+theorem declared_code_tied :
+    Generated.C03Save.compressionStores = ["psd/patterns.py:set_data:self.compression"] ∧
+    Generated.C03Save.saveSetData = ["self._record.image_data.set_data(planes, self._record.header)"] ∧
+    Generated.C03Save.saveStoresAfterSetData = ["version_info.has_composite"] := by decide
 
 /-- **merged_rle_table.** (C17's model of `save()` composed with C04's `ImageData.set_data`.) After a
 structural edit of a supported document whose merged image is RLE-compressed, `save()` regenerates
